@@ -1,5 +1,5 @@
 (* C12 — an interrupted copy-up never leaves a truncated or mixed copy, and is reported.
-   Statements only; proofs in Proofs/FaultyMem.v, FaultyPath.v, FaultyProof.v, FaultyMain.v.
+   Statements only; proofs in Proofs/FaultyMem.v, FaultyPath.v, FaultyProof.v, FaultyMain.v, UnionWriteShort.v.
 
    Setting: base = MemMapFs (m_step), layer = MemMapFs behind the fault injector of
    Model/Faulty.v (faulty_step m_step pl: every Fs and file call on the layer is numbered, the
@@ -23,7 +23,7 @@
      exactly the entry before (same path-map slot, same node), and an error is returned;  or
      a regular file whose bytes are dat. *)
 From AF Require Import Lib.Bytes Lib.Path Lib.Ops Gen.Consts Model.MemFile Model.MemFs Model.Union Model.Cow Model.Cache
-  Model.Faulty Proofs.MemBelow Proofs.FaultyMem Proofs.FaultyProof Proofs.FaultyMain.
+  Model.Faulty Model.Stack Proofs.MemBelow Proofs.FaultyMem Proofs.FaultyProof Proofs.FaultyMain Proofs.UnionWriteShort.
 Local Open Scope Z_scope.
 
 (* ANY plan with at most one non-Pass entry, faults on the LAYER side *)
@@ -200,6 +200,40 @@ Theorem C12_cow_openfile_interrupted : forall (name : str) (pl : plan) (sb sl : 
 Proof. exact c12_cow. Qed.
 Print Assumptions C12_cow_openfile_interrupted.
 
+(* ---- a copy target that is itself a union: the two-level cache cache(remote, cache(disk, memory)).  copyFile
+   writes through a UnionFile (Layer = memory handle, Base = disk handle).  A disk handle that takes fewer bytes
+   than the memory handle and reports no error (fault short:k on D.HWrite) was masked by UnionFile.Write /
+   WriteAt / WriteString, which dropped the base's count: the copy "succeeded" and the disk level kept a truncated
+   file (found by this property's check: partial-copy:cache2open|cache2openfile|cache2opencreate:D.HWrite).
+   Repaired in unionFile.go; the switch unionfile_write_checks_base_count is read from the AST of the three
+   methods (harness/cmd/afcheck/c12_consts.go), Model/Union.v union_write_result follows either value. ---- *)
+
+(* today's source, ANY two filesystems under the union handle: after the layer took n bytes without an error and
+   the base nb bytes without an error, the union handle answers (nb, io.ErrShortWrite) when nb < n — so io.Copy
+   stops, copyFile removes the target and the callers report the error (theorems above) *)
+Theorem C12_today_union_write_reports_base_short :
+  forall (B L : Type) (bstep : B -> op -> B * res) (lstep : L -> op -> L * res)
+    (sb : B) (sl : L) (u : ufile) (o : op) (lh bh : nat) (sl1 : L) (sb1 : B) (n nb : Z),
+  is_write_op o = true -> ulayer u = Some lh -> ubase u = Some bh ->
+  lstep sl (op_set_handle o lh) = (sl1, RCount n None) ->
+  bstep sb (op_set_handle o bh) = (sb1, RCount nb None) ->
+  uf_op bstep lstep sb sl u o =
+    (sb1, sl1, u, if nb <? n then RCount nb (Some (E KShortWrite)) else RCount n None).
+Proof. exact @union_write_reports_base_short. Qed.
+Print Assumptions C12_today_union_write_reports_base_short.
+
+(* the source before the repair (the switch at any value but 1): whatever count the base returns, the union
+   handle answers the layer's count and no error; witness: Write of 5 bytes, the base takes 3 *)
+Theorem C12_refuted_union_write_masks_base_short_before_fix :
+  (forall (chk : Z) (o : op) (n nb : Z), chk <> 1 ->
+     union_write_result_gen chk o (RCount n None) (RCount nb None) = RCount n None) /\
+  exists (o : op) (r rb : res),
+    is_write_op o = true /\ res_err r = None /\ res_err rb = None /\
+    union_write_result_gen 0 o r rb = r /\
+    union_write_result_gen 1 o r rb = RCount 3 (Some (E KShortWrite)).
+Proof. exact (conj union_write_masks_base_short_before_fix union_write_masks_witness). Qed.
+Print Assumptions C12_refuted_union_write_masks_base_short_before_fix.
+
 (* ---- non-vacuity: the hypotheses are satisfiable, and the three outcomes occur ---- *)
 Definition c12_f : str := [47;100;47;102]%N.                    (* "/d/f" *)
 Definition c12_base : mst :=
@@ -262,3 +296,28 @@ Example C12_ex_trailing_separator_witness : copyfile_cleans_name = 0 ->
     copy_to_layer m_step (faulty_step m_step (fault_single 2 (FltFail (E KEIO)))) c12_base (m_init, 0%nat) c12_f_slash in
   option_map ndir (fs_entry sl' c12_f) = Some true /\ r = Some (E KEIO).
 Proof. intros H. first [ (vm_compute in H; discriminate H) | (vm_compute; split; reflexivity) ]. Qed.
+
+(* The whole stack of the harness case cache2open-none-s5-D4-short3, in the model: remote /d/f = 5 bytes, both cache
+   levels empty, Open through the outer cache, the disk level's call 4 (HWrite) takes k = 3 bytes and says nothing.
+   (result of Open, bytes of /d/f at the disk level, at the memory level).  Today: ErrShortWrite, nothing left at
+   either level.  Before the repair (switch 0): a handle, 3 bytes on disk under 5 bytes in memory. *)
+Definition c12_two_level (k : nat) : stack :=
+  SCache 100 (SFaulty [] SMem) (SCache 100 (SFaulty [(4%nat, FltShort k)] SMem) (SFaulty [] SMem)).
+Definition c12_snap_data (l : list entry) (p : str) : option bytes :=
+  option_map e_data (find (fun e => beqb (e_path e) p) l).
+Definition c12_two_level_run (k : nat) : option (res * option bytes * option bytes) :=
+  match run_case (c12_two_level k)
+          [IOp [0;0]%nat None (MkdirAll [47;100]%N 493); IOp [0;0]%nat (Some 0%nat) (Create c12_f);
+           IOp [0;0]%nat None (HWrite 0 [1;2;3;4;5]%N); IOp [0;0]%nat None (HClose 0);
+           IOp [] (Some 2%nat) (Open c12_f); ISnap [1;0;0]%nat; ISnap [1;1;0]%nat] with
+  | [_; _; _; _; TRes r; TSnap d; TSnap m] => Some (r, c12_snap_data d c12_f, c12_snap_data m c12_f)
+  | _ => None
+  end.
+Example C12_ex_two_level_short_disk_write :
+  c12_two_level_run 3 =
+    if unionfile_write_checks_base_count =? 1 then Some (RErr (E KShortWrite), None, None)
+    else Some (RHandle 0, Some [1;2;3]%N, Some [1;2;3;4;5]%N).
+Proof. vm_compute. reflexivity. Qed.
+Example C12_ex_two_level_no_fault :
+  c12_two_level_run 5 = Some (RHandle 0, Some [1;2;3;4;5]%N, Some [1;2;3;4;5]%N).
+Proof. vm_compute. reflexivity. Qed.
